@@ -12,7 +12,16 @@ Operands == [ K0 |-> <<>>,
               K1 |-> << <<0, 5000>> >>,
               K2 |-> << <<4000, 4200>>, <<65535, 65536>> >>,
               K3 |-> [i \in 1..60 |-> <<10 * i, 10 * i + 1>>] \o << <<20000, 24096>> >>,
-              K4 |-> << <<1, 4097>> >> ]
+              K4 |-> << <<1, 4097>> >>,
+              \* small / skewed operands and operands whose edges meet the builders' members;
+              \* a name ending in "r" is built by the driver with AddRange (run container)
+              K5 |-> << <<100, 300>> >>,
+              K5r |-> << <<100, 300>> >>,
+              K1r |-> << <<0, 5000>> >>,
+              K6 |-> << <<100, 101>> >>,
+              K7 |-> << <<99, 101>>, <<299, 301>> >>,
+              K8 |-> << <<0, 4095>> >>,
+              K9 |-> [i \in 1..130 |-> <<500 * i, 500 * i + 1>>] ]
 Lists == [ L1 |-> <<5, 3, 5, 70, 3>>, L2 |-> <<65535, 0, 65535>>, L3 |-> [i \in 1..40 |-> 4090 + i] ]
 
 Mutators == {"Add", "Remove", "AddRange", "RemoveRange", "Clear", "AddMany"}
